@@ -44,6 +44,7 @@ type Oblig struct {
 	Func    string
 	Blk     int  // block of the verified function in which the obligation arises
 	WantSat bool // cover/smoke: expected satisfiable
+	Dead    bool // smoke of a return site declared unreachable under the contract (unsat is expected)
 	Src     string
 }
 
@@ -303,8 +304,10 @@ func (vc *VC) refBound(term, elemSort, bound string, depth int) {
 	}
 	switch depth {
 	case 2:
+		// only rows of objects allocated before `bound`: rows of not-yet-allocated references
+		// stand for whatever a later allocation puts there and must stay unconstrained
 		cell := app("select", app("select", term, "r!w"), "i!w")
-		vc.assume(fmt.Sprintf("(forall ((r!w Int) (i!w Int)) (! %s :pattern (%s)))", fact(cell), cell))
+		vc.assume(fmt.Sprintf("(forall ((r!w Int) (i!w Int)) (! (=> (< r!w %s) %s) :pattern (%s)))", bound, fact(cell), cell))
 	case 1:
 		cell := app("select", term, "i!w")
 		vc.assume(fmt.Sprintf("(forall ((i!w Int)) (! %s :pattern (%s)))", fact(cell), cell))
